@@ -58,6 +58,10 @@ Theorem C19_load_panics_refuted : stmt_load_panics_refuted.
 Proof. exact load_panics_refuted_ok. Qed.
 Theorem C19_load_ok_valid : stmt_load_ok_valid.
 Proof. exact (@load_ok_valid_ok). Qed.
+Theorem C19_string_sites_agree : stmt_string_sites_agree.
+Proof. exact string_sites_agree_ok. Qed.
+Theorem C19_load_ok_consumers_accept : stmt_load_ok_consumers_accept.
+Proof. exact (@load_ok_consumers_accept_ok). Qed.
 (** cones as saved *)
 Theorem C19_collapse_idempotent : stmt_collapse_idempotent.
 Proof. exact (@collapse_idempotent_ok). Qed.
